@@ -119,6 +119,20 @@ Theorem C03_closest_point_fixes_ends :
 Proof. intros s1 s2 B1 B2. split; [exact (closest_point_fixes_seg1 s1 s2 B1 B2)|exact (closest_point_fixes_seg2 s1 s2 B1 B2)]. Qed.
 Print Assumptions C03_closest_point_fixes_ends.
 
+(* TopX (the abscissa of an edge at a scanline; every vertex the sweep creates at a scanline gets its x from it): for
+   |coordinates| <= 2^25 and a non-horizontal edge it is within 1/2 + 2^-25 of the exact abscissa of the edge's line *)
+Theorem C03_topx_accuracy_small :
+  forall (ae : Active) (currentY : Z),
+  dx ae = GetDx (bot ae) (top ae) ->
+  pt_le (2 ^ 25) (bot ae) -> pt_le (2 ^ 25) (top ae) ->
+  py (top ae) <> py (bot ae) ->
+  (py (top ae) <= currentY <= py (bot ae) \/ py (bot ae) <= currentY <= py (top ae))%Z ->
+  (Rabs (IZR (TopX ae currentY) -
+         (IZR (px (bot ae)) + IZR (px (top ae) - px (bot ae)) / IZR (py (top ae) - py (bot ae)) * IZR (currentY - py (bot ae))))
+   <= / 2 + / IZR (2 ^ 25))%R.
+Proof. exact topx_accuracy_small. Qed.
+Print Assumptions C03_topx_accuracy_small.
+
 (* GetSegmentIntersectPt, default (truncating) variant: for |coordinates| <= 2^52 and ANY two segments, whenever it
    returns true the point lies in the bounding box of the first segment (t is clamped to [0,1], roundings are monotone) *)
 Theorem C03_isect_in_bbox :
